@@ -211,7 +211,7 @@ def run_model(mod, cases, impl_obs, scratch, per_file=None):
             files.append((path, part))
     def work(item):
         path, part = item
-        rc, out = sh('ulimit -s unlimited 2>/dev/null; timeout 900 coqc -Q %s PB %s' % (COQ, path), cwd=scratch, timeout=1000)
+        rc, out = sh('ulimit -s unlimited 2>/dev/null; timeout 900 coqc -noglob -Q %s PB %s' % (COQ, path), cwd=scratch, timeout=1000)
         return rc, out
     mism = []; shown = {}; err = None
     with ThreadPoolExecutor(12) as ex:
